@@ -49,3 +49,94 @@ def rdsLoop : Nat → Str → Str → Str
 def removeDotSegments (path : Str) : Str := rdsLoop (path.length + 1) path []
 
 end Yarl.Rfc
+
+namespace Yarl.Rfc
+
+/-! ### Appendix B: the decomposition `^(([^:/?#]+):)?(//([^/?#]*))?([^?#]*)(\?([^#]*))?(#(.*))?`
+    read left to right.  The scheme group is restricted to a given character set
+    (yarl, like urllib, only recognises `scheme_chars+`) and folded to lower case.
+    An absent and an empty authority/query/fragment are both the empty string. -/
+
+structure Parts5 where
+  scheme : Str
+  authority : Str
+  path : Str
+  query : Str
+  fragment : Str
+  deriving Repr, DecidableEq
+
+def isDelim3 (c : Nat) : Bool := c = 47 || c = 63 || c = 35      -- / ? #
+def isDelim2 (c : Nat) : Bool := c = 63 || c = 35                -- ? #
+
+/-- the longest prefix free of `:` … followed by `:`; accepted only if non-empty and made of scheme characters -/
+def schemeOf (schemeChars : Str) (s : Str) : Str × Str :=
+  let pre := s.takeWhile (· ≠ 58)
+  let post := s.dropWhile (· ≠ 58)
+  match post with
+  | 58 :: rest => if !pre.isEmpty && pre.all (fun c => schemeChars.contains c) then (Yarl.lower pre, rest) else ([], s)
+  | _ => ([], s)
+
+def appendixB (schemeChars : Str) (s : Str) : Parts5 :=
+  let (scheme, r1) := schemeOf schemeChars s
+  let (authority, r2) :=
+    match r1 with
+    | 47 :: 47 :: r => (r.takeWhile (fun c => !isDelim3 c), r.dropWhile (fun c => !isDelim3 c))
+    | _ => ([], r1)
+  let path := r2.takeWhile (fun c => !isDelim2 c)
+  let r3 := r2.dropWhile (fun c => !isDelim2 c)
+  let (query, r4) :=
+    match r3 with
+    | 63 :: r => (r.takeWhile (· ≠ 35), r.dropWhile (· ≠ 35))
+    | _ => ([], r3)
+  let fragment := match r4 with
+    | 35 :: r => r
+    | _ => []
+  { scheme := scheme, authority := authority, path := path, query := query, fragment := fragment }
+
+/-! ### §5.2.2 / §5.2.3 reference resolution (non-strict parser: a reference scheme equal
+    to the base scheme is ignored).  "defined" is "non-empty" (yarl does not
+    distinguish an absent from an empty component). -/
+
+/-- §5.2.3 merge -/
+def merge (base : Parts5) (refPath : Str) : Str :=
+  if !base.authority.isEmpty && base.path.isEmpty then 47 :: refPath
+  else
+    -- all but the last segment of the base path (up to and including the right-most "/")
+    let r := base.path.reverse.dropWhile (· ≠ 47)
+    r.reverse ++ refPath
+
+def resolve (base ref : Parts5) : Parts5 :=
+  let refScheme := if ref.scheme = base.scheme then [] else ref.scheme      -- non-strict
+  if !refScheme.isEmpty then
+    { scheme := ref.scheme, authority := ref.authority, path := removeDotSegments ref.path,
+      query := ref.query, fragment := ref.fragment }
+  else if !ref.authority.isEmpty then
+    { scheme := base.scheme, authority := ref.authority, path := removeDotSegments ref.path,
+      query := ref.query, fragment := ref.fragment }
+  else if ref.path.isEmpty then
+    { scheme := base.scheme, authority := base.authority, path := base.path,
+      query := if !ref.query.isEmpty then ref.query else base.query, fragment := ref.fragment }
+  else if ref.path.head? = some 47 then
+    { scheme := base.scheme, authority := base.authority, path := removeDotSegments ref.path,
+      query := ref.query, fragment := ref.fragment }
+  else
+    { scheme := base.scheme, authority := base.authority, path := removeDotSegments (merge base ref.path),
+      query := ref.query, fragment := ref.fragment }
+
+/-! ### character classes of RFC 3986 §2 / §3, per component -/
+
+def isAlpha (c : Nat) : Bool := (65 ≤ c && c ≤ 90) || (97 ≤ c && c ≤ 122)
+def isDigit (c : Nat) : Bool := 48 ≤ c && c ≤ 57
+def unreserved (c : Nat) : Bool := isAlpha c || isDigit c || c = 45 || c = 46 || c = 95 || c = 126
+def subDelims (c : Nat) : Bool :=
+  c = 33 || c = 36 || c = 38 || c = 39 || c = 40 || c = 41 || c = 42 || c = 43 || c = 44 || c = 59 || c = 61
+/-- pchar without pct-encoded -/
+def pcharLit (c : Nat) : Bool := unreserved c || subDelims c || c = 58 || c = 64
+/-- userinfo literal characters -/
+def userinfoLit (c : Nat) : Bool := unreserved c || subDelims c || c = 58
+/-- literal characters of a path (segments plus the separator) -/
+def pathLit (c : Nat) : Bool := pcharLit c || c = 47
+/-- query / fragment literal characters -/
+def queryLit (c : Nat) : Bool := pcharLit c || c = 47 || c = 63
+
+end Yarl.Rfc
